@@ -3,42 +3,52 @@ package main
 import (
 	"fmt"
 	"os"
-	"time"
-	"verif/internal/ev"
-	"verif/internal/minichain"
-	"verif/ref/refchain"
+
+	"github.com/piotrnar/gocoin/lib/utxo"
 )
 
+func txid(tag uint32) (h [32]byte) {
+	for i := range h {
+		h[i] = byte(tag>>uint(8*(i%4))) ^ byte(i*7)
+	}
+	return
+}
+
+func count(db *utxo.UnspentDB) (n int) {
+	for i := range db.HashMap {
+		n += len(db.HashMap[i])
+	}
+	return
+}
+
 func main() {
-	minichain.Quiet()
-	d := ev.Scratch("probe")
-	defer os.RemoveAll(d)
-	p := refchain.DefaultParams()
-	t0 := time.Now()
-	e := minichain.Open(d+"/x", &minichain.Opts{Params: p})
-	fmt.Fprintln(os.Stderr, "open fresh", time.Since(t0))
-	prev := minichain.GenesisHash
-	t0 = time.Now()
-	for h := uint32(1); h <= 105; h++ {
-		b := minichain.Build(minichain.Spec{Prev: prev, Height: h, CbValue: -1})
-		if r := e.Deliver(b.Bytes()); r != "ok" {
-			panic(r)
+	dn, _ := os.OpenFile("/dev/null", os.O_WRONLY, 0)
+	os.Stdout = dn
+	dir, _ := os.MkdirTemp("/dev/shm", "probe")
+	defer os.RemoveAll(dir)
+	db := utxo.NewUnspentDb(&utxo.NewUnspentOpts{Dir: dir + "/"})
+	N := 65535
+	ch := &utxo.BlockChanges{Height: 1, DeledTxs: map[[32]byte][]bool{}}
+	for i := 0; i < N; i++ {
+		ch.AddList = append(ch.AddList, &utxo.UtxoRec{TxID: txid(uint32(0x1000 + i)), InBlock: 1, Outs: []*utxo.UtxoTxOut{{Value: uint64(i + 1), PKScr: []byte{0x51}}, {Value: 7, PKScr: []byte{0x52}}}})
+	}
+	db.CommitBlockTxs(ch, make([]byte, 32))
+	fmt.Fprintln(os.Stderr, "after gen1:", count(db), "want", N)
+	// gen2: spend both outputs of every 21st record (removes it), one output of every 5th
+	ch2 := &utxo.BlockChanges{Height: 2, DeledTxs: map[[32]byte][]bool{}}
+	removed := 0
+	for i := 0; i < N; i++ {
+		switch {
+		case i%21 == 0:
+			ch2.DeledTxs[txid(uint32(0x1000+i))] = []bool{true, true}
+			removed++
+		case i%5 == 0:
+			ch2.DeledTxs[txid(uint32(0x1000+i))] = []bool{true, false}
 		}
-		prev = b.Hash()
 	}
-	fmt.Fprintln(os.Stderr, "105 blocks", time.Since(t0))
-	t0 = time.Now()
-	e.Close()
-	fmt.Fprintln(os.Stderr, "close", time.Since(t0))
-	for i := 0; i < 3; i++ {
-		t0 = time.Now()
-		e = minichain.Open(d+"/x", &minichain.Opts{Params: p})
-		fmt.Fprintln(os.Stderr, "reopen", time.Since(t0))
-		t0 = time.Now()
-		e.UTXO()
-		fmt.Fprintln(os.Stderr, "dump", time.Since(t0))
-		t0 = time.Now()
-		e.Close()
-		fmt.Fprintln(os.Stderr, "close", time.Since(t0))
-	}
+	db.CommitBlockTxs(ch2, make([]byte, 32))
+	fmt.Fprintln(os.Stderr, "after gen2:", count(db), "want", N-removed)
+	db.Close()
+	db2 := utxo.NewUnspentDb(&utxo.NewUnspentOpts{Dir: dir + "/"})
+	fmt.Fprintln(os.Stderr, "after reload:", count(db2), "want", N-removed)
 }
